@@ -112,8 +112,8 @@ func (e *c09Env) runWS(c c09Case) *Violation {
 	for _, f := range c.Frames {
 		bc := classifyBody([]byte(f))
 		modelled := bc.kind == "single" && !bc.lenient && bc.elems[0].method != ""
-		if bc.kind == "single" && strings.HasPrefix(bc.elems[0].method, "xrpc.") {
-			continue // protocol-internal methods with arbitrary params are C10's subject; not sent here
+		if m := bc.elems; bc.kind == "single" && (m[0].method == "xrpc.cancel" || m[0].method == "xrpc.ch.val" || m[0].method == "xrpc.ch.close") {
+			continue // the three protocol-internal methods with arbitrary params are C10's subject; not sent here
 		}
 		if !modelled {
 			lenient = true // dropped or undefined: statement silent; the server still must not emit malformed frames
@@ -323,7 +323,7 @@ func genMethodAndParams(t *rapid.T) (string, *string) {
 	case mk == 10:
 		method = rapid.SampledFrom([]string{"xrpc.cancel", "xrpc.ch.val", "xrpc.ch.close"}).Draw(t, "internal")
 	default:
-		method = rapid.SampledFrom([]string{"T.Missing", "t.add", "Add", "T.", "", "U.Add", "T.add", "T.Add ", "rpc.discover", "T.Größe", "T.\u0001x", "T.加", strings.Repeat("T.VeryLongMethodName", 20), "T.Add\n"}).Draw(t, "unknown")
+		method = rapid.SampledFrom([]string{"T.Missing", "t.add", "Add", "T.", "", "U.Add", "T.add", "T.Add ", "rpc.discover", "xrpc.status", "xrpc.", "xrpc.ch.open", "xrpc.cancel.all", "xrpcx", "T.Größe", "T.\u0001x", "T.加", strings.Repeat("T.VeryLongMethodName", 20), "T.Add\n"}).Draw(t, "unknown")
 	}
 	name, known := resolveBasic(method)
 	pk := rapid.IntRange(0, 9).Draw(t, "pkind")
@@ -604,7 +604,7 @@ func TestC09(t *testing.T) {
 				}
 			}
 		}
-		for _, m := range []string{"größe.加", "tab\tname", strings.Repeat("long", 80), "T.Größe", "T.\u0001x", strings.Repeat("T.VeryLongMethodName", 20)} {
+		for _, m := range []string{"größe.加", "tab\tname", strings.Repeat("long", 80), "T.Größe", "T.\u0001x", strings.Repeat("T.VeryLongMethodName", 20), "xrpc.status", "xrpc.", "xrpc.ch.open"} {
 			for _, tr := range []string{"inproc", "http", "http-chunked"} {
 				run(t, c09Case{Transport: tr, Body: `{"jsonrpc":"2.0","id":7,"method":` + string(mustJSON(m)) + `,"params":[1,2]}`})
 			}
